@@ -34,3 +34,7 @@ package handlers
 //@ func NewClientHandler
 //@   assigns nothing
 //@   ensures [fresh] result != nil && result.baseHandler.server == server && result.baseHandler.receiveBuf.content == ""
+
+// ---- request encoding (C12) -------------------------------------------------------------------
+//@ func (*baseHandler).SendMessage
+//@   at-send h.commands [envelope] elem == "protocol 4.1 base64 " + ufs_b64encode(command) + ";"
